@@ -326,6 +326,11 @@ func (_this *Decoder) decodeArrayChunks(eventReceiver events.DataEventReceiver, 
 		validateLength(elementCount)
 		eventReceiver.OnArrayChunk(elementCount, moreChunksFollow)
 		byteCount := common.ElementCountToByteCount(elementBitWidth, elementCount)
+		// The reader reserves room for the whole chunk, and a receiver other than
+		// the rules would not have objected to its size.
+		if byteCount > _this.config.Rules.MaxArraySizeBytes {
+			panic(fmt.Errorf("array chunk of %v bytes exceeds the maximum array size of %v", byteCount, _this.config.Rules.MaxArraySizeBytes))
+		}
 		if byteCount > 0 {
 			nextBytes := _this.reader.ReadBytes(int(byteCount))
 			eventReceiver.OnArrayData(nextBytes)
